@@ -198,9 +198,9 @@ func (pooledSen) call(buf []byte, how int) (r callResult) {
 	return
 }
 
-const numInstKinds = 7
+const numInstKinds = 8
 
-var instNames = [...]string{"oj.Parser", "gen.Parser", "sen.Parser", "oj.Validator", "oj.Tokenizer", "oj.Parse(pooled)", "sen.Parse(pooled)"}
+var instNames = [...]string{"oj.Parser", "gen.Parser", "sen.Parser", "oj.Validator", "oj.Tokenizer", "oj.Parse(pooled)", "sen.Parse(pooled)", "sen.Tokenizer"}
 
 func newInstance(kind int) instance {
 	switch kind {
@@ -216,8 +216,28 @@ func newInstance(kind int) instance {
 		return &tokenizerInst{}
 	case 5:
 		return pooledOj{}
+	case 7:
+		return &senTokenizerInst{}
 	}
 	return pooledSen{}
+}
+
+type senTokenizerInst struct{ t sen.Tokenizer }
+
+func (x *senTokenizerInst) call(buf []byte, how int) (r callResult) {
+	in := append([]byte{}, buf...)
+	r.pan = vx.Catch(func() {
+		h := &builder{}
+		var err error
+		if how == howReader1 {
+			err = x.t.Load(&chunkReader{data: in, chunks: chunking(len(in), len(in))}, h)
+		} else {
+			err = x.t.Parse(in, h)
+		}
+		r.val = h.docs
+		r.setErr(err)
+	})
+	return
 }
 
 // first-call inputs: a prefix that leaves the instance in an interesting
